@@ -1000,6 +1000,14 @@ func includeWildcard(child *fieldHandlingTree, parent *fieldHandlingTree) (*fiel
 		if err := sub.merge(child); err != nil {
 			return nil, err.(Error)
 		}
+		if own, err := child.wildcard(); err == nil {
+			// the field has a wildcard of its own ("b.**.l"): both apply below
+			united, err := uniteFieldHandling(wildcard, own)
+			if err != nil {
+				return nil, err.(Error)
+			}
+			wildcard = united
+		}
 	}
 	if err := sub.setWildcard(wildcard); err != nil {
 		return nil, err.(Error)
